@@ -26,6 +26,23 @@ template <class T> static std::vector<Case<T>> pair_cases(T p, Rng& g, int nrand
     v.push_back({x, rnd_below<T>(g, p), 0});
     v.push_back({x, x, 0});
   }
+  // structured magnitudes: operands 2^b, 2^b+1, 2^(b+1)-1, 3*2^(b-1) with b1+b2 around the limb width, so that the
+  // products straddle p, 2p, 3p, 2^w and 2^(w+1) (half-limb fast paths, quotient digits, conditional subtractions)
+  {
+    const int w = bits<T>();
+    auto mags = [&](int b, T out[4]) {
+      T one = 1;
+      out[0] = (T)(one << b); out[1] = (T)((one << b) + 1);
+      out[2] = (T)(((one << b) << 1) - 1); out[3] = b > 0 ? (T)(3 * (one << (b - 1))) : 1;
+    };
+    for (int b1 = 0; b1 <= w - 3; b1++)
+      for (int s = w - 5; s <= w; s++) {
+        int b2 = s - b1;
+        if (b2 < 0 || b2 > w - 3) continue;
+        T xs[4], ys[4]; mags(b1, xs); mags(b2, ys);
+        for (T x : xs) for (T y : ys) if (x < p && y < p) v.push_back({x, y, 0});
+      }
+  }
   for (auto& c : v) c.c = rnd_below<T>(g, p);
   v[0].c = (T)(p - 1); v[1].c = 0;
   return v;
@@ -59,6 +76,26 @@ template <class T> static std::vector<Case<T>> shoup_cases(T p, Rng& g, int nran
     // directly; canonical x near multiples of the quotient boundary:
     T x = rnd_below<T>(g, p);
     v.push_back({x, y, 0});
+  }
+  // precomputed quotients whose exact value y*2^w/p is within eps/p of an integer: y = ±eps * (2^w)^-1 mod p.
+  // (a quotient computed with rounding instead of floor is off by one exactly there), combined with the x that make
+  // the product estimate most sensitive: 2^w-1, p-1, and x with x*(y'+1) ≡ small (mod 2^w)
+  {
+    T Wm = (T)((((G)1) << w) % p);
+    T invW = (T)invmod(Wm, p);
+    for (int e = 1; e <= 6; e++) for (int sgn = 0; sgn < 2; sgn++) {
+      T eps = (T)e;
+      T y = (T)(((G)(sgn ? (T)(p - eps) : eps) * invW) % p);
+      T yp = (T)((((G)y) << w) / p);
+      T xs[] = {(T)~(T)0, (T)(p - 1), (T)(p / 2), rnd_below<T>(g, p), 0, 0, 0};
+      int nx = 4;
+      T yq = (T)(yp + 1);
+      if (yq & 1) {
+        T inv = yq; for (int k = 0; k < 7; k++) inv = (T)(inv * (T)(2 - yq * inv));
+        xs[nx++] = inv; xs[nx++] = (T)(2 * inv); xs[nx++] = (T)(3 * inv);
+      }
+      for (int i = 0; i < nx; i++) v.push_back({xs[i], y, 0});
+    }
   }
   for (auto& c : v) c.c = rnd_below<T>(g, p);
   return v;
